@@ -510,6 +510,30 @@ def enumerate_functions(tier, seed, shard, nshards):
         yield {"calls": [calls[-1], copy.deepcopy(calls[-1])], "budget": 24, "axis": lab, "shared": _has_caller_object(calls[-1])}
 
 
+def enumerate_histories(tier, seed, shard, nshards):
+    """Sequential histories along the function axis: per entry two calls with different arguments, then, for every number among
+    its arguments that may be zero, the call with +0.0 and with -0.0 in that place (both orders over the run), a repeat and a
+    threaded re-run - so that every library function meets the argument pairs that compare equal without being the same."""
+    _setup()
+    k = 2 if tier == "quick" else 6
+    for idx, (label, strat) in enumerate(P.function_axis()):
+        if idx % nshards != shard:
+            continue
+        calls = _sample(strat, k + 1, seed * 104729 + idx)[1:]
+        if not calls:
+            continue
+        for j, base in enumerate(calls):
+            steps = [{"call": c} for c in calls[j:j + 2]]
+            keys = [q for q in P._SZ_KEYS if isinstance(base["a"].get(q), float)]
+            for n, q in enumerate(keys[:4]):
+                zs = [0.0, -0.0] if (idx + n + j) % 2 == 0 else [-0.0, 0.0]
+                steps += [{"call": {"fn": base["fn"], "a": dict(base["a"], **{q: z})}} for z in zs]
+            steps += [{"repeat": 0}, {"threads": [4, 2]}]
+            yield {"history": steps, "axis": label or base["fn"]}
+            if tier == "quick":
+                break
+
+
 def _classes_sched(case):
     cs = case["calls"]
     out = ["threads:%d" % len(cs)]
@@ -537,6 +561,11 @@ SUBCHECKS = [
              rule="the same invariants over histories drawn as lists (length 1..50) so that every history is a plain replayable value"),
 ]
 SUBCHECKS += [
+    SubCheck("histories_every_function", check_history, enumerate=enumerate_histories, nontrivial=lambda c: True,
+             classes=lambda c: ["axis:" + c["axis"].split(":")[0]] + _classes(c), shards_quick=16, shards_thorough=32, setup=_setup,
+             rule="enumeration along the catalogue's function axis (about 290 entries): per entry a short sequential history - two calls, "
+                  "then the same call with +0.0 and with -0.0 in each argument that may be zero (equal as dictionary keys, different as "
+                  "numbers), a repeat and a threaded re-run - under the invariants of the other history sub-checks"),
     SubCheck("owned_schedules", check_schedules, strategy=_schedule_cases(60), nontrivial=lambda c: True, classes=_classes_sched,
              quick=48, thorough=1600, shards_quick=8, shards_thorough=48, setup=_setup,
              rule="2..3 calls (a family of one entry point sharing part of its arguments / two arbitrary calls / the same call twice) run in "
